@@ -214,6 +214,7 @@ def run_property(prop, tier="quick", repo_root="/repo", seed=0, only=None, verbo
                            failing_input=f, native=dict(confirmed=True, observed=f), note="found by run-time contract checking on the real function (bounded stand-in), the prover reported: %s" % (r.limit or "undecided")),
                       open(rpath, "w"), indent=1, default=str)
             violations.append("VIOLATION property=%s replay=%s" % (prop, rpath))
+    known_lines += extra.get("known_lines", [])
     for ev in extra["violations"]:
         fname = re.sub(r"[^A-Za-z0-9_.@-]", "_", ev["obligation"])[:150] + ".json"
         rpath = os.path.join(VERIF, "replays", prop, fname)
@@ -358,7 +359,7 @@ def finding_matches(kmatch, replay):
 
 
 def run_extra_checks(prop, repo, spec, gnums, repo_root):
-    out = dict(obligations=0, discharged=0, violations=[], samples=[], assumptions=[], ground=[])
+    out = dict(obligations=0, discharged=0, violations=[], samples=[], assumptions=[], ground=[], known_lines=[])
     path = os.path.join(VERIF, "contracts", "extra_%s.py" % prop.lower())
     if not os.path.exists(path):
         return out
